@@ -49,7 +49,7 @@ META = dict(
     level_text="Every URL within the bound is rendered and re-parsed on the real URL/make_url code and compared component "
     "by component, and additionally against a 40-line reference splitter/encoder of the generic URL grammar, so renderer "
     "and parser are each decided alone as well as together. Complete for the bound: any defect that needs <=2 components "
-    "with <=2 (quick) / <=3 x <=2 (thorough) characters of the alphabet, or all five components with <=1 character, is found.",
+    "with <=2 (quick) / 3 x <=1 (thorough) characters of the alphabet, or all five components with <=1 character, is found.",
     level_note="Trusted: the reference splitter/encoder in this file (generic RFC-1738 shape; percent-decoding by bytes.fromhex + utf-8). "
     "Alphabet of 16 characters; longer strings and other characters are not claimed.",
     rule="case = (base URL, component values); families: single/pair deviations from an empty and a full base URL x hosts x ports, "
@@ -65,7 +65,7 @@ META = dict(
         quick="strings <=2 chars over 16 chars (+12 idioms): singles x 2 bases (x hosts x ports x drivers for <=1 char); all pairs of the 5 components "
         "(<=2 x <=2 chars around the full base, <=2 x <=1 around the empty base); full 5-component product over 8 short values x 3 hosts x 2 ports; "
         "tuples <=3 / two-key queries over <=1-char strings",
-        thorough="singles <=3 chars; pairs (<=3 x <=2 chars, both orders, full base; <=3 x <=1 empty base); full 5-component product over 12 short values "
+        thorough="singles <=3 chars; pairs (<=2 x <=2 chars full base, <=2 x <=1 empty base, and every 3-char string x <=1 char both orders, both bases); full 5-component product over 12 short values "
         "x 4 hosts x 2 ports; 2-tuples over <=2-char strings, 3-tuples and two-key queries over <=1-char strings",
     ),
 )
@@ -318,7 +318,7 @@ def _variants(c):
             d = dict(c)
             d[k] = None
             yield d
-        if isinstance(c[k], str):
+        if isinstance(c[k], str) and k != "host":  # a host is only ever replaced by None: it must stay syntactically valid
             for sv in _smaller_values(c[k]):
                 d = dict(c)
                 d[k] = sv
@@ -557,25 +557,31 @@ def _cases(shard, tier):
         _, bname, i, j, ch, nchunk = shard
         base = BASES[bname]
         ci, cj = COMPS[i], COMPS[j]
-        if bname == "empty":
-            small = strings(1)
+        s2 = strings(2) + IDIOMS
+        s1 = strings(1)
+        small = s1 if bname == "empty" else s2
         n = 0
-        for vi in [None] + big:
+        for vi in [None] + s2:
             n += 1
             if n % nchunk != ch:
                 continue
             c1 = with_comp(base, ci, vi)
             for vj in [None] + small:
                 yield fam, (ci, cj), with_comp(c1, cj, vj)
-        if big is not small:
+        if tier != "quick":
+            # every 3-character string in one component x every <=1-character string in the other, both ways
             n = 0
-            for vj in big:
-                n += 1
-                if n % nchunk != ch or len(vj) < 3 or vj in IDIOMS:
+            for v3 in big:
+                if len(v3) != 3 or v3 in IDIOMS:
                     continue
-                c1 = with_comp(base, cj, vj)
-                for vi in [None] + small:
-                    yield fam, (ci, cj), with_comp(c1, ci, vi)
+                n += 1
+                if n % nchunk != ch:
+                    continue
+                c1 = with_comp(base, ci, v3)
+                c2 = with_comp(base, cj, v3)
+                for v in [None] + s1:
+                    yield fam, (ci, cj), with_comp(c1, cj, v)
+                    yield fam, (ci, cj), with_comp(c2, ci, v)
     elif fam == "product":
         _, ch, nchunk = shard
         dom = SHORT8 if tier == "quick" else SHORT12
